@@ -222,6 +222,7 @@ class Engine:
         self.gcur = None
         self.last_waits = []
         self.select_order = 0
+        self.dec_text_unknown = False   # True: the decimal text of a symbolic number is an unknown short text (panic-freedom checks)
         self.uuid_counter = 0
         self.depth_blocked_ok = True
         self.blocked_states = []
@@ -999,7 +1000,11 @@ class Engine:
                 q = abs(x) // abs(y)
                 return wrap(q if (x < 0) == (y < 0) else -q, bits, signed)
             if tok == '%':
-                return wrap(x - y * int(x / y), bits, signed)
+                if y == 0:
+                    self.panic(st, True, 'div0')
+                    return 0
+                q = abs(x) // abs(y)
+                return wrap(x - y * (q if (x < 0) == (y < 0) else -q), bits, signed)
             if tok == '&':
                 return wrap(x & y, bits, signed)
             if tok == '|':
@@ -1801,6 +1806,8 @@ def _sprintf(e, st, args, ins):
         elif verb == b'd' and fmt == b'%d' and is_sym(v) and z3.is_bv(v) and v.size() == 64 and e.feasible(And(st.pc, z3.UGE(v, 100))):
             # the whole text is the decimal rendering of a full-range 64-bit value: kept abstract (sign, magnitude)
             signed = dt in ('int', 'int64')
+            if e.dec_text_unknown:
+                return i_base64_encode(e, st, None, None)
             if signed:
                 return DecStr(sb(v < 0), si(z3.If(v < 0, -v, v), signed=False))
             return DecStr(False, v)
@@ -2308,6 +2315,8 @@ def _format_int(e, st, a, signed):
         raise Unsupported('strconv.Format(U)int with a base other than 10')
     if not is_sym(v):
         return str(v).encode()
+    if e.dec_text_unknown:
+        return i_base64_encode(e, st, a, None)
     if signed:
         return DecStr(sb(v < 0), si(z3.If(v < 0, -v, v), signed=False))
     return DecStr(False, v)
@@ -2593,6 +2602,28 @@ def i_re_matchstring(e, st, a, i):
     raise Unsupported('no symbolic model for MatchString of ' + pat)
 
 
+def i_big_newfloat(e, st, a, i):
+    """math/big.NewFloat(x): panics with ErrNaN when x is a NaN (floats are concrete in the engine)"""
+    x = a[0]
+    if is_sym(x):
+        raise Unsupported('big.NewFloat of a symbolic float')
+    if x != x:
+        e.panic(st, True, 'big.NewFloat(NaN)')
+        st.pc = False
+    return Opaque('big.Float')
+
+
+def i_bigfloat_gobencode(e, st, a, i):
+    obj = e.new_obj(st, (0,), None)
+    return (SliceV(obj, 0, 1, 1, False), e.zero(e.T(i['type'])['elems'][1]))
+
+
+def i_base64_encode(e, st, a, i):
+    """(*base64.Encoding).EncodeToString: an unknown short text (only compared with other texts)"""
+    e.b64_count = getattr(e, 'b64_count', 0) + 1
+    return i_nondet_string(e, st, [b'base64.%d' % e.b64_count, 4, b'AQ=g'], i)
+
+
 def i_uuid_new(e, st, a, i):
     z = e.zero(i['type'])
     if not e.goroutine_park:
@@ -2694,6 +2725,15 @@ INTRINSICS = {
     'github.com/onosproject/onos-config/internal/verifrt.Assert': lambda e, st, a, i: e.obligations.append((a[1].decode(), sb(And(st.pc, Not(a[0]))))),
     'github.com/onosproject/onos-config/internal/verifrt.Cover': lambda e, st, a, i: (e.covers.append((a[0].decode(), st.pc)), e.snapshots.__setitem__(a[0].decode(), (st.pc, dict(st.heap)))) and None,
     'verif.identity': lambda e, st, a, i: a[0],
+    'math/big.NewFloat': i_big_newfloat,
+    '(*encoding/base64.Encoding).EncodeToString': i_base64_encode,
+    # the text of a stored float (big.Float gob decoding + %f): an unknown short text, only compared with other texts
+    '(*github.com/onosproject/onos-api/go/onos/config/v2.TypedFloat).String': i_base64_encode,
+    '(*github.com/onosproject/onos-api/go/onos/config/v2.TypedDouble).String': i_base64_encode,
+    '(*math/big.Float).GobEncode': i_bigfloat_gobencode,
+    'math.NaN': lambda e, st, a, i: float('nan'),
+    'math.IsNaN': lambda e, st, a, i: a[0] != a[0],
+    'math.Inf': lambda e, st, a, i: float('inf') if (a[0] if not is_sym(a[0]) else 0) >= 0 else float('-inf'),
     'context.Background': lambda e, st, a, i: Opaque('ctx'),
     'golang.org/x/net/context.Background': lambda e, st, a, i: Opaque('ctx'),
     'context.WithTimeout': lambda e, st, a, i: (Opaque('ctx'), FuncV('verif.noop')),
@@ -2778,6 +2818,8 @@ FORCE_STUB = {
     'google.golang.org/grpc/metadata.NewIncomingContext',
     'google.golang.org/grpc/metadata.FromIncomingContext',
     'verif.noop',
+    '(*github.com/onosproject/onos-api/go/onos/config/v2.TypedFloat).String',
+    '(*github.com/onosproject/onos-api/go/onos/config/v2.TypedDouble).String',
 }
 
 
